@@ -208,6 +208,9 @@ func c01Units(tier string) []eng.Unit {
 			if kd != "key" {
 				specs = append(specs, c01Spec{kind: kd, preset: "block-edge", cap: 1024, depth: 2, nvals: 2, nrows: 2})
 			}
+			if kd == "enum" || kd == "string" || kd == "record" {
+				specs = append(specs, c01Spec{kind: kd, preset: "many-distinct", cap: 64, depth: 2, nvals: 2, nrows: 2})
+			}
 			if kd != "expire" && kd != "key" {
 				specs = append(specs,
 					c01Spec{kind: kd, preset: "sparse-3", cap: 1024, depth: 3, nvals: 2, nrows: 3, late: true},
@@ -227,6 +230,9 @@ func c01Units(tier string) []eng.Unit {
 			}
 		}
 		specs = append(specs, c01Spec{kind: kd, preset: "sparse-3", cap: 1024, depth: 4, nvals: 3, nrows: 3})
+		if kd == "enum" || kd == "string" || kd == "record" {
+			specs = append(specs, c01Spec{kind: kd, preset: "many-distinct", cap: 64, depth: 3, nvals: 3, nrows: 2})
+		}
 		if kd != "key" {
 			specs = append(specs, c01Spec{kind: kd, preset: "block-edge", cap: 1024, depth: 3, nvals: 2, nrows: 2})
 		}
